@@ -232,7 +232,7 @@ def process_batch(rec, items, wd, tag):
                 rec.sample({**it.describe(), "result": it.c[-1]["tensor"]})
 
 
-def kernel_items(rng, n):
+def kernel_items(rng, n, rec=None):
     items = []
     attempts = 0
     while len(items) < n and attempts < n * 6:
@@ -241,7 +241,10 @@ def kernel_items(rng, n):
             target, tree = gen.random_assignment(rng, allow_broadcast_target=True)
         else:
             target, tree = gen.parse(rng.choice(gen.CURATED + gen.BROADCAST))
-        case = engine.build_case(rng, target, tree, None, values=gen.ULP + gen.DYADIC, origin="c06")
+        special = rng.random() < 0.12
+        case = engine.build_case(rng, target, tree, None, values=(gen.ULP + gen.SPECIAL) if special else (gen.ULP + gen.DYADIC), origin="c06")
+        if special and rec is not None:
+            rec.count("kernel_cases_with_special_values")
         if case.capacity is None:
             case.capacity = 16  # the default 2^20 capacity would make ASan binaries slow
         try:
@@ -300,7 +303,7 @@ def shard(rec, tier, index, n_shards):
     rng = random.Random(f"C06-{rec.seed}-{index}")
     wd = work_dir("c06")
     try:
-        items = kernel_items(rng, plan["kernels"] // n_shards) + tree_items(rng, plan["trees"] // n_shards)
+        items = kernel_items(rng, plan["kernels"] // n_shards, rec) + tree_items(rng, plan["trees"] // n_shards)
         # the K5 class as its own small workload so that the classifier is exercised every run
         # float literals that need 17 significant digits (both printers must keep the exact double)
         for text in ["a(i) = b(i) * 0.30000000000000004 + c(i) * 1.0000000000000002 + d(i) * 0.1",
